@@ -193,7 +193,13 @@ def _hyp_settings(n, shrink=True, stateful_steps=None):
     return settings(**kw)
 
 
-def run_given_shard(mod, tier, seed, n, rec):
+def _strategy(mod, tier, mode):
+    if mode is None:
+        return mod.strategy(tier)
+    return mod.strategy(tier, mode)
+
+
+def run_given_shard(mod, tier, seed, n, rec, mode=None):
     """Run one Hypothesis @given campaign; return failure dict or None."""
     import hypothesis
     from hypothesis import given
@@ -202,7 +208,7 @@ def run_given_shard(mod, tier, seed, n, rec):
 
     @hypothesis.seed(seed)
     @_hyp_settings(n)
-    @given(mod.strategy(tier))
+    @given(_strategy(mod, tier, mode))
     def prop(case):
         h = case_hash(case)
         act = ctl.before(h)
@@ -241,7 +247,7 @@ def run_given_shard(mod, tier, seed, n, rec):
     return None
 
 
-def run_machine_shard(mod, tier, seed, n, rec):
+def run_machine_shard(mod, tier, seed, n, rec, mode=None):
     import hypothesis
     from hypothesis.stateful import run_state_machine_as_test
     known = open_keys(mod.ID)
@@ -264,7 +270,7 @@ def run_machine_shard(mod, tier, seed, n, rec):
 
 
 def _shard_entry(args):
-    prop_id, tier, seed, n, idx = args
+    prop_id, tier, seed, n, idx, mode = args
     t0 = time.time()
     try:
         from pbt import env
@@ -272,9 +278,9 @@ def _shard_entry(args):
         mod = importlib.import_module("pbt.props." + prop_id.lower())
         rec = Recorder()
         if hasattr(mod, "machine"):
-            fail = run_machine_shard(mod, tier, seed, n, rec)
+            fail = run_machine_shard(mod, tier, seed, n, rec, mode)
         else:
-            fail = run_given_shard(mod, tier, seed, n, rec)
+            fail = run_given_shard(mod, tier, seed, n, rec, mode)
         return dict(idx=idx, seed=seed, rec=rec.dump(), failure=fail, error=None,
                     wall=time.time() - t0)
     except Exception:
@@ -284,7 +290,7 @@ def _shard_entry(args):
 
 # --------------------------------------------------------------------------------------------
 def write_replay(prop_id, failure, seed, tier):
-    d = os.path.join(VERIF, "replays", prop_id)
+    d = os.path.join(os.environ.get("VERIF_REPLAY_DIR", os.path.join(VERIF, "replays")), prop_id)
     os.makedirs(d, exist_ok=True)
     body = dict(property=prop_id, finding_key=failure["key"], message=failure["message"],
                 case=json.loads(canon(failure["case"])), seed=seed, tier=tier)
@@ -295,7 +301,8 @@ def write_replay(prop_id, failure, seed, tier):
 
 
 def write_evidence(mod, tier, seed, rec, wall, violations, shards, level="exploration"):
-    os.makedirs(os.path.join(VERIF, "evidence"), exist_ok=True)
+    evdir = os.environ.get("VERIF_EVIDENCE_DIR", os.path.join(VERIF, "evidence"))
+    os.makedirs(evdir, exist_ok=True)
     cov = dict(evaluations=int(rec.evaluations),
                distinct_nontrivial=int(len(rec.nontrivial)),
                rule=mod.RULE,
@@ -307,7 +314,7 @@ def write_evidence(mod, tier, seed, rec, wall, violations, shards, level="explor
     cov.update(rec.extra)
     ev = dict(property_id=mod.ID, tier=tier, seed=int(seed), level=level, coverage=cov,
               assumptions=list(mod.ASSUMPTIONS), wall_s=round(wall, 2), violations=int(violations))
-    path = os.path.join(VERIF, "evidence", mod.ID + ".json")
+    path = os.path.join(evdir, mod.ID + ".json")
     tmp = path + ".tmp"
     with open(tmp, "w") as f:
         json.dump(ev, f, indent=1, sort_keys=True, default=_default)
@@ -330,10 +337,13 @@ def run_check(prop_id, tier):
     t0 = time.time()
     seed = int(os.environ.get("VERIF_SEED", "1"))
     mod = importlib.import_module("pbt.props." + prop_id.lower())
-    nshards, per = mod.BUDGET[tier]
+    budget = mod.BUDGET[tier]
+    if isinstance(budget, tuple):
+        budget = [(None, budget[1])] * budget[0]
+    nshards = len(budget)
     scale = float(os.environ.get("VERIF_SCALE", "1"))
-    per = max(1, int(per * scale))
-    jobs = [(prop_id, tier, seed * 1000 + i, per, i) for i in range(nshards)]
+    jobs = [(prop_id, tier, seed * 1000 + i, max(1, int(per * scale)), i, mode)
+            for i, (mode, per) in enumerate(budget)]
     procs = min(nshards, int(os.environ.get("VERIF_PROCS", "16" if tier == "thorough" else "4")))
     if procs <= 1:
         results = [_shard_entry(j) for j in jobs]
@@ -386,13 +396,21 @@ def run_check(prop_id, tier):
             seen.add(f["key"])
             path = write_replay(prop_id, f, seed, tier)
             print("    finding %s: %s" % (f["key"], f["message"][:400]))
-            print("VIOLATION property=%s replay=%s" % (prop_id, os.path.relpath(path, VERIF)))
+            rel = os.path.relpath(path, VERIF)
+            print("VIOLATION property=%s replay=%s" % (prop_id, path if rel.startswith("..") else rel))
         code = 1
     if rec.evaluations == 0:
         sys.stderr.write("HARNESS ERROR: no cases were evaluated\n")
         return 2
     inc = sum(rec.inconclusive.values())
-    write_evidence(mod, tier, seed, rec, wall, len(failures), shards)
+    if failures and not rec.samples:
+        rec.samples.append(json.loads(canon(failures[0]["case"])))
+    try:
+        write_evidence(mod, tier, seed, rec, wall, len(failures), shards)
+    except Exception as e:
+        if code == 0:
+            raise
+        sys.stderr.write("evidence of a violating run does not validate (%s)\n" % type(e).__name__)
     if code == 0 and inc > 0.25 * max(1, rec.evaluations):
         sys.stderr.write("HARNESS ERROR: %d of %d cases inconclusive (generator needs fixing)\n"
                          % (inc, rec.evaluations))
